@@ -575,53 +575,84 @@ func ruleC02SEID(w *World, r *Report, handlers map[string]*ssa.Function, accepte
 				continue
 			}
 			okv := extractOf(get, 1)
-			// the closure call on the not-found edge
-			var nfCall *ssa.Call
+			// the replies returned on the not-found edge: built by a reply closure called there, or in place
+			var ctors []*ssa.Call
+			var nfSite ssa.Instruction
+			var collect func(v ssa.Value, d int)
+			collect = func(v ssa.Value, d int) {
+				if d > 5 || v == nil {
+					return
+				}
+				switch x := v.(type) {
+				case *ssa.Call:
+					if ctorArg(x, "seid") != nil {
+						ctors = append(ctors, x)
+						return
+					}
+					if callee := staticCallee(x); callee != nil && w.isRepoFunc(callee) {
+						for _, ret := range returnsOf(callee) {
+							collect(res(ret, 0), d+1)
+						}
+					}
+				case *ssa.Extract:
+					collect(x.Tuple, d+1)
+				case *ssa.Phi:
+					for _, e := range x.Edges {
+						collect(e, d+1)
+					}
+				case *ssa.MakeInterface:
+					collect(x.X, d+1)
+				case *ssa.ChangeInterface:
+					collect(x.X, d+1)
+				}
+			}
 			for _, b := range h.Blocks {
 				for _, s := range b.Succs {
 					if v, truth, ok := boolEdge(b, s); ok && !truth && v == okv && len(s.Preds) == 1 {
-						for _, i := range s.Instrs {
-							if c, ok := i.(*ssa.Call); ok {
-								if callee := staticCallee(c); callee != nil && callee.Parent() == h {
-									nfCall = c
+						for _, bb := range h.Blocks {
+							if bb != s && !s.Dominates(bb) {
+								continue
+							}
+							for _, i := range bb.Instrs {
+								if ret, ok := i.(*ssa.Return); ok && len(ret.Results) > 0 {
+									if nfSite == nil {
+										nfSite = i
+									}
+									collect(res(ret, 0), 0)
 								}
 							}
 						}
 					}
 				}
 			}
-			if nfCall == nil {
+			if len(ctors) == 0 || nfSite == nil {
 				r.bad("R02.3", hn, "unknown session is rejected", w.Pos(get.Pos()), "no rejecting reply on the not-found edge of GetSession")
 				continue
 			}
-			callee := staticCallee(nfCall)
-			// SEID used by that closure's constructor
 			zero := true
 			desc := ""
-			for _, ret := range returnsOf(callee) {
-				if c, ok := res(ret, 0).(*ssa.Call); ok {
-					if seid := ctorArg(c, "seid"); seid != nil {
-						if k, isK := constInt(seid); isK && k == 0 {
-							desc = "constant 0"
-							continue
-						}
-						// a captured cell: no store to it may precede the not-found call
-						if u, isU := seid.(*ssa.UnOp); isU && u.Op == token.MUL {
-							if cell := cellOf(u.X); cell != nil {
-								for _, st := range storesTo(cell) {
-									if st.Parent() == h && reach(h, st, func(j ssa.Instruction) bool { return j == ssa.Instruction(nfCall) }, nil, nil) != nil {
-										zero = false
-									}
-								}
-								desc = "captured variable with no store before the not-found reply"
-								continue
+			for _, c := range ctors {
+				seid := ctorArg(c, "seid")
+				if k, isK := constInt(seid); isK && k == 0 {
+					desc = "constant 0"
+					continue
+				}
+				// a captured (or local) cell: no store to it may precede the not-found reply
+				if u, isU := seid.(*ssa.UnOp); isU && u.Op == token.MUL {
+					if cell := cellOf(u.X); cell != nil {
+						for _, st := range storesTo(cell) {
+							if st.Parent() == h && reach(h, st, func(j ssa.Instruction) bool { return j == nfSite }, nil, nil) != nil {
+								zero = false
 							}
 						}
-						zero = false
-						desc = symOf(seid).String()
+						desc = "variable with no store before the not-found reply"
+						continue
 					}
 				}
+				zero = false
+				desc = symOf(seid).String()
 			}
+			nfCall := nfSite
 			r.check(zero, "R02.3", hn, "unknown session answered with SEID 0", w.Pos(nfCall.Pos()), desc, "reply for an unknown session carries SEID "+desc)
 		}
 	}
